@@ -19,6 +19,12 @@
 /// Caller must ensure the CPU supports AVX2 (e.g., via `is_x86_feature_detected!("avx2")`);
 #[target_feature(enable = "avx2,fma")]
 pub fn reim_add_avx2_fma(res: &mut [f64], a: &[f64], b: &[f64]) {
+    // The vector loops below move whole groups of 4 (8 for the complex kernels) doubles and have no scalar
+    // tail: a ring degree below 8 is handled by the scalar kernel.
+    if res.len() < 8 {
+        poulpy_cpu_ref::reference::fft64::reim::reim_add_ref(res, a, b);
+        return;
+    }
     #[cfg(debug_assertions)]
     {
         assert_eq!(a.len(), res.len());
@@ -49,6 +55,12 @@ pub fn reim_add_avx2_fma(res: &mut [f64], a: &[f64], b: &[f64]) {
 /// Caller must ensure the CPU supports AVX2 (e.g., via `is_x86_feature_detected!("avx2")`);
 #[target_feature(enable = "avx2,fma")]
 pub fn reim_add_assign_avx2_fma(res: &mut [f64], a: &[f64]) {
+    // The vector loops below move whole groups of 4 (8 for the complex kernels) doubles and have no scalar
+    // tail: a ring degree below 8 is handled by the scalar kernel.
+    if res.len() < 8 {
+        poulpy_cpu_ref::reference::fft64::reim::reim_add_assign_ref(res, a);
+        return;
+    }
     #[cfg(debug_assertions)]
     {
         assert_eq!(a.len(), res.len());
@@ -76,6 +88,12 @@ pub fn reim_add_assign_avx2_fma(res: &mut [f64], a: &[f64]) {
 /// Caller must ensure the CPU supports AVX2 (e.g., via `is_x86_feature_detected!("avx2")`);
 #[target_feature(enable = "avx2,fma")]
 pub fn reim_sub_avx2_fma(res: &mut [f64], a: &[f64], b: &[f64]) {
+    // The vector loops below move whole groups of 4 (8 for the complex kernels) doubles and have no scalar
+    // tail: a ring degree below 8 is handled by the scalar kernel.
+    if res.len() < 8 {
+        poulpy_cpu_ref::reference::fft64::reim::reim_sub_ref(res, a, b);
+        return;
+    }
     #[cfg(debug_assertions)]
     {
         assert_eq!(a.len(), res.len());
@@ -106,6 +124,12 @@ pub fn reim_sub_avx2_fma(res: &mut [f64], a: &[f64], b: &[f64]) {
 /// Caller must ensure the CPU supports AVX2 (e.g., via `is_x86_feature_detected!("avx2")`);
 #[target_feature(enable = "avx2,fma")]
 pub fn reim_sub_assign_avx2_fma(res: &mut [f64], a: &[f64]) {
+    // The vector loops below move whole groups of 4 (8 for the complex kernels) doubles and have no scalar
+    // tail: a ring degree below 8 is handled by the scalar kernel.
+    if res.len() < 8 {
+        poulpy_cpu_ref::reference::fft64::reim::reim_sub_assign_ref(res, a);
+        return;
+    }
     #[cfg(debug_assertions)]
     {
         assert_eq!(a.len(), res.len());
@@ -133,6 +157,12 @@ pub fn reim_sub_assign_avx2_fma(res: &mut [f64], a: &[f64]) {
 /// Caller must ensure the CPU supports AVX2 (e.g., via `is_x86_feature_detected!("avx2")`);
 #[target_feature(enable = "avx2,fma")]
 pub fn reim_sub_negate_assign_avx2_fma(res: &mut [f64], a: &[f64]) {
+    // The vector loops below move whole groups of 4 (8 for the complex kernels) doubles and have no scalar
+    // tail: a ring degree below 8 is handled by the scalar kernel.
+    if res.len() < 8 {
+        poulpy_cpu_ref::reference::fft64::reim::reim_sub_negate_assign_ref(res, a);
+        return;
+    }
     #[cfg(debug_assertions)]
     {
         assert_eq!(a.len(), res.len());
@@ -160,6 +190,12 @@ pub fn reim_sub_negate_assign_avx2_fma(res: &mut [f64], a: &[f64]) {
 /// Caller must ensure the CPU supports AVX2 (e.g., via `is_x86_feature_detected!("avx2")`);
 #[target_feature(enable = "avx2,fma")]
 pub fn reim_negate_avx2_fma(res: &mut [f64], a: &[f64]) {
+    // The vector loops below move whole groups of 4 (8 for the complex kernels) doubles and have no scalar
+    // tail: a ring degree below 8 is handled by the scalar kernel.
+    if res.len() < 8 {
+        poulpy_cpu_ref::reference::fft64::reim::reim_negate_ref(res, a);
+        return;
+    }
     #[cfg(debug_assertions)]
     {
         assert_eq!(a.len(), res.len());
@@ -190,6 +226,12 @@ pub fn reim_negate_avx2_fma(res: &mut [f64], a: &[f64]) {
 /// Caller must ensure the CPU supports AVX2 (e.g., via `is_x86_feature_detected!("avx2")`);
 #[target_feature(enable = "avx2,fma")]
 pub fn reim_negate_assign_avx2_fma(res: &mut [f64]) {
+    // The vector loops below move whole groups of 4 (8 for the complex kernels) doubles and have no scalar
+    // tail: a ring degree below 8 is handled by the scalar kernel.
+    if res.len() < 8 {
+        poulpy_cpu_ref::reference::fft64::reim::reim_negate_assign_ref(res);
+        return;
+    }
     use std::arch::x86_64::{__m256d, _mm256_loadu_pd, _mm256_storeu_pd, _mm256_xor_pd};
 
     let span: usize = res.len() >> 2;
@@ -212,6 +254,12 @@ pub fn reim_negate_assign_avx2_fma(res: &mut [f64]) {
 /// Caller must ensure the CPU supports AVX2 (e.g., via `is_x86_feature_detected!("avx2")`);
 #[target_feature(enable = "avx2,fma")]
 pub fn reim_addmul_avx2_fma(res: &mut [f64], a: &[f64], b: &[f64]) {
+    // The vector loops below move whole groups of 4 (8 for the complex kernels) doubles and have no scalar
+    // tail: a ring degree below 8 is handled by the scalar kernel.
+    if res.len() < 8 {
+        poulpy_cpu_ref::reference::fft64::reim::reim_addmul_ref(res, a, b);
+        return;
+    }
     #[cfg(debug_assertions)]
     {
         assert_eq!(a.len(), res.len());
@@ -264,6 +312,12 @@ pub fn reim_addmul_avx2_fma(res: &mut [f64], a: &[f64], b: &[f64]) {
 /// Caller must ensure the CPU supports AVX2 (e.g., via `is_x86_feature_detected!("avx2")`);
 #[target_feature(enable = "avx2,fma")]
 pub fn reim_mul_avx2_fma(res: &mut [f64], a: &[f64], b: &[f64]) {
+    // The vector loops below move whole groups of 4 (8 for the complex kernels) doubles and have no scalar
+    // tail: a ring degree below 8 is handled by the scalar kernel.
+    if res.len() < 8 {
+        poulpy_cpu_ref::reference::fft64::reim::reim_mul_ref(res, a, b);
+        return;
+    }
     #[cfg(debug_assertions)]
     {
         assert_eq!(a.len(), res.len());
@@ -315,6 +369,12 @@ pub fn reim_mul_avx2_fma(res: &mut [f64], a: &[f64], b: &[f64]) {
 /// Caller must ensure the CPU supports AVX2 (e.g., via `is_x86_feature_detected!("avx2")`);
 #[target_feature(enable = "avx2,fma")]
 pub fn reim_mul_assign_avx2_fma(res: &mut [f64], a: &[f64]) {
+    // The vector loops below move whole groups of 4 (8 for the complex kernels) doubles and have no scalar
+    // tail: a ring degree below 8 is handled by the scalar kernel.
+    if res.len() < 8 {
+        poulpy_cpu_ref::reference::fft64::reim::reim_mul_assign_ref(res, a);
+        return;
+    }
     #[cfg(debug_assertions)]
     {
         assert_eq!(a.len(), res.len());
